@@ -1,8 +1,81 @@
-(* C16 — Chunk normalization produces valid layouts within the byte limit. *)
-From DA Require Import PyBase NormChunks.
+(* C16 — Chunk normalization produces valid layouts within the byte limit.
+   Statements only; proofs in theories/NormChunksFacts.v.  The float k-th root `size`
+   of auto_chunks is an oracle argument (`sizes`): every theorem holds for all oracle
+   values, the byte-limit theorems under the explicit root hypothesis. *)
+From DA Require Import PyBase NormChunks NormChunksFacts.
 Open Scope Z_scope.
 
-Example C16_uniform_example :
-  normalize_chunks [] [AInt 4; AInt 3] [10; 10] = Ok [[4;4;2];[3;3;3;1]].
+(* every accepted specification yields one non-empty tuple per axis of non-negative
+   sizes summing to the axis length — for ALL oracle values *)
+Theorem C16_valid_layout : forall sizes specs shape cs,
+  Forall (fun n => 0 <= n) shape ->
+  normalize_chunks sizes specs shape = Ok cs ->
+  layout_ok cs shape = true.
+Proof. exact normalize_valid_layout. Qed.
+
+(* an explicit uniform size c yields blocks of size c except possibly a smaller last block *)
+Theorem C16_uniform : forall sizes specs shape cs i c n,
+  nth_error specs i = Some (AInt c) -> 0 < c ->
+  nth_error shape i = Some n -> 0 < n ->
+  normalize_chunks sizes specs shape = Ok cs ->
+  nth_error cs i = Some (repeat c (Z.to_nat (n / c)) ++ (if n mod c =? 0 then [] else [n mod c])).
+Proof. exact normalize_uniform. Qed.
+
+Theorem C16_full_axis : forall sizes specs shape cs i sp n,
+  nth_error specs i = Some sp -> sp = AFull \/ sp = AInt (-1) ->
+  nth_error shape i = Some n ->
+  normalize_chunks sizes specs shape = Ok cs ->
+  nth_error cs i = Some [n].
+Proof. exact normalize_full. Qed.
+
+(* only zero-length axes carry zero-size chunks — unless the caller wrote a 0 into an
+   explicit tuple ... *)
+Theorem C16_zero_only_on_empty_axes : forall sizes specs shape cs,
+  (forall l, In (ATuple l) specs -> ~ In 0 l) ->
+  normalize_chunks sizes specs shape = Ok cs ->
+  forall i n l, nth_error shape i = Some n -> 0 < n -> nth_error cs i = Some l ->
+    Forall (fun c => 0 < c) l.
+Proof. exact normalize_zero_only_on_empty_axes. Qed.
+
+(* ... in which case the full-strength clause is refuted (known finding F4) *)
+Theorem C16_explicit_zero_chunk_refuted :
+  exists sizes specs shape cs,
+    normalize_chunks sizes specs shape = Ok cs /\
+    exists i n l, nth_error shape i = Some n /\ 0 < n /\ nth_error cs i = Some l /\ In 0 l.
+Proof. exact normalize_explicit_zero_refuted. Qed.
+
+(* 'auto' axes: blocks within the limit unless the fixed axes alone exceed it *)
+Theorem C16_auto_limit : forall limit itemsize sizes specs shape cs,
+  0 < itemsize -> 0 <= limit ->
+  normalize_chunks sizes specs shape = Ok cs ->
+  count_autos (subst_all specs shape) <> 0 ->
+  oracles_sound limit itemsize (S (length (subst_all specs shape))) sizes (subst_all specs shape) shape ->
+  exists num den specsL,
+    auto_last (S (length (subst_all specs shape))) sizes (subst_all specs shape) shape = Some (num, den, specsL) /\
+    (itemsize * max_block cs <= limit \/
+     (num / den < 1 /\ existsb (fun b => b) (small_flags num den specsL shape) = false)) /\
+    itemsize * max_block cs <= Z.max limit (itemsize * largest_fixed specsL).
+Proof. exact normalize_auto_limit_all_levels. Qed.
+
+(* the model's fuel / oracle exhaustion error is unreachable with one oracle value per auto axis *)
+Theorem C16_auto_fuel_adequate : forall sizes specs shape,
+  length specs = length shape ->
+  count_autos specs <= Z.of_nat (length sizes) ->
+  exists specs', auto_chunks (S (length specs)) sizes specs shape = Ok specs'.
+Proof. exact auto_chunks_fuel_adequate. Qed.
+
+Example C16_ex_two_level_auto :
+  normalize_chunks [(2236,100);(500,3)] [AAuto; AAuto; AInt 2] [3; 1000; 10]
+  = Ok [[3]; repeat 166 6 ++ [4]; [2;2;2;2;2]].
 Proof. vm_compute. reflexivity. Qed.
-Print Assumptions C16_uniform_example.
+
+Example C16_ex_negative_rejected : normalize_chunks [] [AInt (-3)] [10] = Err EValue.
+Proof. vm_compute. reflexivity. Qed.
+
+Print Assumptions C16_valid_layout.
+Print Assumptions C16_uniform.
+Print Assumptions C16_full_axis.
+Print Assumptions C16_zero_only_on_empty_axes.
+Print Assumptions C16_explicit_zero_chunk_refuted.
+Print Assumptions C16_auto_limit.
+Print Assumptions C16_auto_fuel_adequate.
